@@ -279,6 +279,20 @@ def fam_chunk(seed, n, tag="chunk"):
                 for fill in (b"0", b"f"):
                     out.append(("A", "%s.b%d.%s%s" % (tag, nd, lead.decode(), fill.decode()), "c", 0, 0, 0,
                                 lead + fill * (nd - 1) + b"\r\n"))
+    # size lines FOLLOWED by chunk data (the usual situation); extensions of every length 0..40; very long digit runs
+    body = b"Rust\r\n0\r\n\r\n"
+    for c in list(out):
+        if c[1].startswith(tag + ".") and c[1][len(tag) + 1:].isdigit() and int(c[1][len(tag) + 1:]) % 2 == 0:
+            out.append(("A", c[1] + ".body", "c", 0, 0, 0, c[6] + body))
+    for L in range(0, 41):
+        for fillb in (b"x", b"\r"[:0] + b";"):
+            ext = b"4;" + fillb * L + b"\r\n"
+            out.append(("A", "%s.ext%d.%s" % (tag, L, fillb.hex()), "c", 0, 0, 0, ext))
+            out.append(("A", "%s.ext%d.%s.body" % (tag, L, fillb.hex()), "c", 0, 0, 0, ext + body))
+    for nd in (64, 255, 256, 257, 272, 300, 512, 515):
+        for pat in (b"0", b"f"):
+            out.append(("A", "%s.long%d.%s" % (tag, nd, pat.decode()), "c", 0, 0, 0, pat * nd + b"1\r\n"))
+            out.append(("A", "%s.long%d.%s.p" % (tag, nd, pat.decode()), "c", 0, 0, 0, pat * nd))
     # all 256 byte values at every position of a few chunk-size lines (every grammatical position: first
     # digit, later digit, after whitespace, in the extension, after CR), followed by nothing / a line end
     for mi, msg in enumerate(CHUNK_SEEDMSG):
@@ -290,7 +304,7 @@ def fam_chunk(seed, n, tag="chunk"):
     return out
 
 
-CHUNK_SEEDMSG = (b"1a;x=y\r\n", b"F \t\r\n", b"0\r\n", b"9 ;q\r\n")
+CHUNK_SEEDMSG = (b"1a;x=y\r\n", b"F \t\r\n", b"0\r\n", b"9 ;q\r\n", b"5\r\nhello\r\n0\r\n\r\n", b"1c;sig=0123456789a\r\nxxxxxxxx")
 
 
 CHUNK_ALPHABET = b"09afAFg; \t\r\n\x00x"
@@ -370,6 +384,8 @@ def adversarial(seed, sizes, tag="adv"):
             "ows": (b"A:" + b" \t" * (n // 2) + b"v" + b" \t" * (n // 2) + b"\r\n\r\n", "h", 0),
             "htabs": (b"A: " + b"a\tb" * (n // 3) + b"\r\n\r\n", "h", 0),
             "htab8": (b"A: " + b"abcdefg\t" * (n // 8) + b"\r\n\r\n", "h", 0),
+            "tabrun": (b"A: x" + b"\t" * n + b"y\r\n\r\n", "h", 0),
+            "tabrunp": (b"HTTP/1.1 200 OK\r\nA: x" + b"\t" * n + b"y\r\n\r\n", "p", 0),
             "obs": (b"A: " + b"\xff" * n + b"\r\n\r\n", "h", 0),
             "name": (b"a" * n + b": v\r\n\r\n", "h", 0),
             "target": (b"GET /" + b"a" * n + b" HTTP/1.1\r\n\r\n", "q", 0),
